@@ -43,7 +43,8 @@ def run(rep, props, replay=None):
     runq = C.CoqRun("C18", IMPORTS, shard=6)
     todo = []
     domains = [(0.0, 1.0), (-1.0, 1.0), (1.0, 365.0), (-2.0, 0.0), (100.0, 101.0), (-3.5, 0.25), (0.0, 2.5),
-               (1000.0, 1001.0), (1990.0, 2020.0), (-4097.0, -4096.0), (1.7e9, 1.7e9 + 3600.0)]      # far from the origin
+               (1000.0, 1001.0), (1990.0, 2020.0), (-4097.0, -4096.0), (1.7e9, 1.7e9 + 3600.0),     # far from the origin
+               (0.0, 2.0 ** -30), (3 * 2.0 ** -30, 5 * 2.0 ** -30)]                                # abscissae in small units
     for idx, (p, nf) in enumerate(bs_cases(rng, quick)):
         a, b = domains[idx % len(domains)]
         nseg = nf - p
